@@ -3,6 +3,7 @@ package engine
 import (
 	"fmt"
 	"strings"
+	"time"
 )
 
 // E6: exhaustive interleaving of calls into the library at its synchronization operations.
@@ -71,6 +72,7 @@ func DefaultProbes(tier string, n int) []int {
 // are explored with one preemption (either thread is interrupted once, at any of its sync operations).
 func ConcurrentSubSweep(name, what string, calls func(tier string) []Call, pairs func(tier string, n int) [][2]int, probes func(tier string, n int) []int, qBound, tBound int) *Sub {
 	ConcRegistry[name] = calls
+	var subStart time.Time
 	var cl []Call
 	var want []string
 	var tierOf string
@@ -78,6 +80,7 @@ func ConcurrentSubSweep(name, what string, calls func(tier string) []Call, pairs
 		if cl != nil && tierOf == tier {
 			return nil
 		}
+		subStart = time.Now()
 		cl, tierOf = calls(tier), tier
 		if probes != nil {
 			all := cl
@@ -175,7 +178,23 @@ func ConcurrentSubSweep(name, what string, calls func(tier string) []Call, pairs
 			}
 			mk := func() []func(ThreadSeam) { return []func(ThreadSeam){guarded(0), guarded(1)} }
 			names := cl[cs.I].Name + " || " + cl[cs.J].Name
+			caseStart := time.Now()
+			budget := 3 * time.Second
+			if ctx.Tier == "thorough" {
+				budget = 30 * time.Second
+			}
+			// ... and the whole sub-check at most 60 s (quick) / 15 min (thorough): beyond that every remaining
+			// pair still runs its default schedules (who starts), but is not explored further
+			subBudget := 60 * time.Second
+			if ctx.Tier == "thorough" {
+				subBudget = 15 * time.Minute
+			}
+			overBudget := false
 			judge := func(env *Env, s *Sched) {
+				ctx.Heartbeat()
+				if time.Since(caseStart) > budget || (s.SyncPts > 0 && time.Since(subStart) > subBudget) {
+					overBudget = true
+				}
 				ctx.Eval(4)
 				ctx.Trans(int64(len(env.Taken)))
 				switched := false
@@ -238,7 +257,7 @@ func ConcurrentSubSweep(name, what string, calls func(tier string) []Call, pairs
 			if probes != nil && (cs.I == len(cl)-1 || cs.J == len(cl)-1) {
 				b = 1
 			}
-			_, capped, err := ExploreSchedules(b, 20000, mk, judge)
+			_, capped, err := ExploreSchedulesUntil(b, 20000, mk, judge, func() bool { return overBudget })
 			if err != nil {
 				panic(err)
 			}
@@ -246,7 +265,9 @@ func ConcurrentSubSweep(name, what string, calls func(tier string) []Call, pairs
 				ctx.OutcomeN("schedule-replay-diverged", d)
 				ctx.Inexact("schedule replays diverged: the code under test keeps state across executions, so the enumeration of interleavings is not exhaustive there")
 			}
-			if capped {
+			if capped && overBudget {
+				ctx.Inexact(fmt.Sprintf("the schedules of one pair of calls took more than %s: exploration of that pair stopped there", budget))
+			} else if capped {
 				ctx.Inexact("more than 20000 schedules for one pair of calls")
 			}
 		},
